@@ -495,6 +495,35 @@ def gen_spelled(family, seed):
     return spec
 
 
+SHADOW_NAMES = ['e', 'tau', 'gamma', 'size']      # legal variable names that numpy / math also export
+
+
+def gen_named(family, seed):
+    """systems whose VARIABLES are named like objects numpy / math export (given through variables=[...])"""
+    base = {'simplify-rational-named': 'simplify-rational', 'simplify-linear-named': 'simplify-linear'}[family]
+    k = 0
+    while True:
+        spec = gen_program(base, seed * 7 + k)
+        k += 1
+        # (no exponent literals: the library replaces variable names textually, so a variable `e` and a literal `4e-08`
+        #  cannot live in one text -- a documented limitation, not what this family is about)
+        if 'variables' not in spec['kwds'] and not re.search(r'x1\d|x[4-9]', spec['text']) and not re.search(r'\d[eE][-+]?\d', spec['text']):
+            break
+    text = spec['text']
+    for i in (3, 2, 1, 0):
+        text = re.sub(r'\bx%d\b' % i, SHADOW_NAMES[i], text)
+    used = [n for n in SHADOW_NAMES if re.search(r'\b%s\b' % n, text)]
+    kw = dict(spec['kwds'], variables=list(SHADOW_NAMES))
+    if 'target' in kw:
+        kw['target'] = [SHADOW_NAMES[int(t[1:])] for t in kw['target'] if t[1:].isdigit() and int(t[1:]) < 4]
+        if not kw['target']:
+            del kw['target']
+    spec.update(family=family, text=text, kwds=kw)
+    if spec.get('factor'):
+        spec['factor'] = SHADOW_NAMES[int(spec['factor'][1:])]
+    return spec
+
+
 def gen_matrix(family, seed):
     rng = random.Random(seed)
     n = rng.choice([1, 2, 3, 4, 12])
@@ -758,6 +787,11 @@ def gen_constants(family, seed):
         sub += 1
     kw['locals'] = consts
     spec.update(family=family, base=base, rseed=seed, text=text, kwds=kw)
+    if random.Random(seed * 17 + 3).random() < 0.35:
+        # the same text was simplified / solved before with OTHER values of the named constants (a caller looping over
+        # parameter values): the later call must answer for its own values
+        spec['prior_locals'] = {k_: ((-v if v else 1.5) if isinstance(v, (int, float)) and not isinstance(v, bool) else v)
+                                for k_, v in consts.items()}
     return spec
 
 
@@ -804,6 +838,11 @@ def check(spec, res, stats):
     signal.alarm(CALL_LIMIT)
     try:
         with contextlib.redirect_stdout(io.StringIO()):
+            if spec.get('prior_locals') is not None:
+                try:
+                    (ms.simplify if fam.startswith('simplify') else ms.solve)(spec['text'], **dict(kwds, locals=dict(spec['prior_locals'])))
+                except Exception:      # noqa -- the earlier call's own outcome is not what is judged here
+                    pass
             if fam.startswith('simplify'):
                 out = ms.simplify(spec['text'], **kwds)
                 in_lines = _lines(spec['text'])
@@ -966,17 +1005,21 @@ COUNTS = {'quick': {'simplify-linear': 24, 'simplify-opposed': 8, 'simplify-rati
                     'solve': 12, 'linear_symbolic': 24, 'symbolic_bounds': 24,
                     'simplify-boundary': 48, 'simplify-shared-sign': 24, 'merge': 147 + 80,
                     'simplify-constants': 64, 'solve-constants': 16, 'solve-literals': 24,
-                    'simplify-rational-spelled': 24, 'simplify-linear-spelled': 12, 'solve-spelled': 16},
+                    'simplify-rational-spelled': 24, 'simplify-linear-spelled': 12, 'solve-spelled': 16,
+                    'simplify-rational-named': 24, 'simplify-linear-named': 8},
           'thorough': {'simplify-linear': 680, 'simplify-opposed': 70, 'simplify-rational': 300,
                        'simplify-product': 50, 'solve': 400, 'linear_symbolic': 400, 'symbolic_bounds': 400,
                        'simplify-boundary': 400, 'simplify-shared-sign': 200, 'merge': 147 + 1200,
                        'simplify-constants': 600, 'solve-constants': 150, 'solve-literals': 300,
-                       'simplify-rational-spelled': 300, 'simplify-linear-spelled': 150, 'solve-spelled': 200}}
+                       'simplify-rational-spelled': 300, 'simplify-linear-spelled': 150, 'solve-spelled': 200,
+                       'simplify-rational-named': 300, 'simplify-linear-named': 100}}
 GENS = {'linear_symbolic': gen_matrix, 'symbolic_bounds': gen_matrix, 'simplify-boundary': gen_boundary,
         'simplify-shared-sign': gen_shared_sign, 'simplify-constants': gen_constants,
         'solve-constants': gen_constants, 'solve-literals': gen_solve_literals,
-        'simplify-rational-spelled': gen_spelled, 'simplify-linear-spelled': gen_spelled, 'solve-spelled': gen_spelled}
-LATE_FAMILIES = ('solve-literals', 'simplify-rational-spelled', 'simplify-linear-spelled', 'solve-spelled')
+        'simplify-rational-spelled': gen_spelled, 'simplify-linear-spelled': gen_spelled, 'solve-spelled': gen_spelled,
+        'simplify-rational-named': gen_named, 'simplify-linear-named': gen_named}
+LATE_FAMILIES = ('solve-literals', 'simplify-rational-spelled', 'simplify-linear-spelled', 'solve-spelled',
+                 'simplify-rational-named', 'simplify-linear-named')
 
 
 def run(tier='quick', seed=0):
